@@ -822,6 +822,13 @@ class Model:
         t["rpc1"] = self.rpc_delegate("ctap1")
         t["large_blobs_default"] = self.default_method("ctap2", "Authenticator", "large_blobs")
         t["version_default"] = self.default_method("ctap1", "Authenticator", "version")
+        lb = t["large_blobs_default"]
+        m = re.search(r"Err \(\s*Error :: (\w+)\s*\)\s*\}$", lb)
+        t["large_blobs_default_error"] = m.group(1) if (m and "self ." not in lb and "Ok (" not in lb) else None
+        m = re.search(r'b"((?:[^"\\]|\\.)*)"', t["version_default"])
+        t["version_default_bytes"] = m.group(1) if m else None
+        t["rpc2_delegates"] = bool(re.fullmatch(r"\{ self \. call_ctap2 \(request\) \}", t["rpc2"]))
+        t["rpc1_delegates"] = bool(re.fullmatch(r"\{ self \. call_ctap1 \(request\) \}", t["rpc1"]))
         # constants
         consts = {}
         for cname in ("AUTHENTICATOR_DATA_LENGTH", "THEORETICAL_MAX_MESSAGE_SIZE", "MAX_CREDENTIAL_COUNT_IN_LIST",
